@@ -664,3 +664,115 @@ package mast
 //@ ensures absent [C01] (=> (isNil (Mast.root H0 m)) (and (isErr err) (= H H0)))
 //@ loop 1 invariant cfg (MastCfg H m)
 //@ loop 1 invariant dp [C02 C11 C13] (DirtyPrivate H)
+
+// ---------------------------------------------------------------------------------------
+// Clone and cursors (C10)
+
+//@ func (*mastNode).ToShared
+//@ tags C01 C02 C10 C11
+//@ modifies W Arr.Any Node.*@fresh mastNode.*@fresh
+//@ requires nn (> node 0)
+//@ requires shape [T3] (and (Shape H node) (AllOK H))
+//@ ensures ok [C02] (=> (= err anil) (and (> result0 0) (Shape H result0) (=> (mastNode.shared H0 node) (= result0 node)) (=> (not (mastNode.shared H0 node)) (and (> result0 W0) (FreshArrays H result0 W0)))))
+//@ ensures fail (=> (isErr err) (= result0 0))
+//@ ensures dp [C02 C11 C13] (=> (DirtyPrivate H0) (DirtyPrivate H))
+//@ ensures frame [C02 C11] (NodesSame H0 H W0)
+//@ loop 1 invariant idx (and (<= (- 1) rangeindex) (> node' W0) (FreshArrays H node' W0) (Shape H node'))
+//@ loop 1 invariant frame [C02 C11] (and (NodesSame H0 H W0) (=> (DirtyPrivate H0) (DirtyPrivate H)))
+//@ loop 1 invariant closure [T3] (and (AllOK H) (LinksOK H node'))
+
+//@ func (*Mast).Clone
+//@ tags C01 C02 C10 C11 C12 C16
+//@ modifies W G.loads Arr.Any Node.*@fresh mastNode.*@fresh Box.Bytes@fresh
+//@ requires ok (MastCfg H m)
+//@ requires closure [T3] (AllOK H)
+//@ ensures frame [C02 C11 C12] (and (NodesSame H0 H W0) (= (Mast.root H m) (Mast.root H0 m)))
+//@ ensures dp [C02 C11 C13] (=> (DirtyPrivate H0) (DirtyPrivate H))
+//@ ensures loads [C16] (<= (G.loads H) (+ (G.loads H0) 1))
+//@ ensures res [C01 C10] (=> (= err anil) (and (LinkOK (S_Mast.root result0)) (= (S_Mast.size result0) (Mast.size H0 m)) (= (S_Mast.height result0) (Mast.height H0 m)) (= (S_Mast.branchFactor result0) (Mast.branchFactor H0 m)) (= (S_Mast.keyOrder result0) (Mast.keyOrder H0 m)) (= (S_Mast.keyLayer result0) (Mast.keyLayer H0 m)) (=> (isPtr (S_Mast.root result0)) (Shape H (a.val (S_Mast.root result0))))))
+//@ ensures healthy [C01] (=> healthy (= err anil))
+
+// CursorOK: a cursor's path names node-shaped nodes with valid link indices
+//@ smt (define-fun CursorOK ((h Heap) (c Int)) Bool (and (> c 0) (> (Cursor.m h c) 0) (not (= (Mast.keyOrder h (Cursor.m h c)) 0)) (PathOK h (Cursor.path h c))))
+//@ smt (define-fun CursorSame ((h0 Heap) (h Heap) (c Int)) Bool (and (= (sl.len (Cursor.path h c)) (sl.len (Cursor.path h0 c))) (forall ((j Int)) (! (=> (and (<= 0 j) (< j (sl.len (Cursor.path h0 c)))) (= (pathAt h (Cursor.path h c) j) (pathAt h0 (Cursor.path h0 c) j))) :pattern ((pathAt h (Cursor.path h c) j)) :pattern ((pathAt h0 (Cursor.path h0 c) j))))))
+
+//@ func (*Mast).Cursor
+//@ tags C01 C02 C10 C11 C12
+//@ modifies W G.loads Arr.Any Arr.S_pathEntry@fresh Node.*@fresh mastNode.*@fresh Box.Bytes@fresh Mast.*@fresh Cursor.*@fresh
+//@ requires ok (MastCfg H m)
+//@ requires closure [T3] (AllOK H)
+//@ ensures ok [C10] (=> (= err anil) (CursorOK H result0))
+//@ ensures frame [C02 C11 C12] (NodesSame H0 H W0)
+//@ ensures healthy [C01] (=> healthy (= err anil))
+
+//@ func (*Cursor).Get
+//@ tags C01 C10
+//@ pure
+//@ requires ok [C10] (CursorOK H c)
+//@ ensures none (=> (= (sl.len (Cursor.path H0 c)) 0) (not result2))
+
+//@ func (*Cursor).Min
+//@ tags C01 C10 C12
+//@ modifies W G.loads Cursor.path Arr.S_pathEntry Arr.Any@fresh Node.*@fresh mastNode.*@fresh Box.Bytes@fresh
+//@ requires ok [C10] (CursorOK H c)
+//@ requires closure [T3] (AllOK H)
+//@ ensures ok [C10] (=> (= err anil) (CursorOK H c))
+//@ ensures healthy [C01 C10] (=> healthy (= err anil))
+//@ loop 1 invariant ok [C10] (and (CursorOK H c) (> node 0) (Shape H node))
+//@ loop 1 invariant closure [T3] (and (AllOK H) (LinksOK H node))
+
+//@ func (*Cursor).Max
+//@ tags C01 C10 C12
+//@ modifies W G.loads Cursor.path Arr.S_pathEntry Arr.Any@fresh Node.*@fresh mastNode.*@fresh Box.Bytes@fresh
+//@ requires ok [C10] (CursorOK H c)
+//@ requires closure [T3] (AllOK H)
+//@ ensures ok [C10] (=> (= err anil) (CursorOK H c))
+//@ ensures healthy [C01 C10] (=> healthy (= err anil))
+//@ loop 1 invariant ok [C10] (and (CursorOK H c) (> node 0) (Shape H node))
+//@ loop 1 invariant closure [T3] (and (AllOK H) (LinksOK H node))
+
+//@ func (*Cursor).Forward
+//@ tags C01 C10 C12
+//@ modifies W G.loads Cursor.path Arr.S_pathEntry Arr.Any@fresh Node.*@fresh mastNode.*@fresh Box.Bytes@fresh
+//@ requires ok [C10] (CursorOK H c)
+//@ requires closure [T3] (AllOK H)
+//@ ensures ok [C10] (=> (= err anil) (CursorOK H c))
+//@ ensures healthy [C01 C10] (=> healthy (= err anil))
+//@ loop 1 invariant ok [C10] (and (CursorOK H c) (> (sl.len (Cursor.path H c)) 0))
+
+//@ func (*Cursor).Backward
+//@ tags C01 C10 C12
+//@ modifies W G.loads Cursor.path Arr.S_pathEntry Arr.Any@fresh Node.*@fresh mastNode.*@fresh Box.Bytes@fresh
+//@ requires ok [C10] (CursorOK H c)
+//@ requires closure [T3] (AllOK H)
+//@ ensures ok [C10] (=> (= err anil) (CursorOK H c))
+//@ ensures healthy [C01 C10] (=> healthy (= err anil))
+//@ loop 1 invariant ok [C10] (and (CursorOK H c) (> (sl.len (Cursor.path H c)) 0))
+
+//@ func (*Cursor).search1$1
+//@ tags C01 C10
+//@ modifies W Box.Any Box.Int Arr.Any@fresh
+//@ requires idx (and (> (Box.Int H c) 0) (> (Box.Int H node) 0) (<= 0 i) (< i (nkeys H (Box.Int H node))) (> (Cursor.m H (Box.Int H c)) 0) (not (= (Mast.keyOrder H (Cursor.m H (Box.Int H c))) 0)))
+//@ requires boxes (and (distinct cmp c node) (distinct err key) (<= err W) (<= cmp W) (<= c W) (<= node W) (<= key W))
+//@ ensures sticky (=> (isErr (Box.Any H0 err)) (and result (= (Box.Any H err) (Box.Any H0 err))))
+//@ ensures clean (=> (and (not (isErr (Box.Any H0 err))) (not (isErr (Box.Any H err)))) (and (= (Box.Int H cmp) (ord (Box.Any H0 key) (KeyAt H0 (Box.Int H0 node) i))) (= result (<= (Box.Int H cmp) 0))))
+
+//@ abstract sort.Search@(*Cursor).search1 (n f) -> (r)
+//@ modifies W Box.Any Box.Int Arr.Any@fresh
+//@ ensures range (and (<= 0 r) (<= r n))
+//@ ensures frameInt (forall ((b Int)) (! (=> (and (<= b W0) (not (= b cmp&))) (= (Box.Int H b) (Box.Int H0 b))) :pattern ((Box.Int H b))))
+
+//@ func (*Cursor).search1
+//@ tags C01 C10 C12
+//@ modifies W Box.Any@fresh Box.Int@fresh Arr.S_pathEntry Arr.Any@fresh
+//@ requires ok [C10] (and (CursorOK H c) (> (sl.len (Cursor.path H c)) 0))
+//@ ensures ok [C10] (=> (= err anil) (and (CursorOK H c) (= (sl.len (Cursor.path H c)) (sl.len (Cursor.path H0 c)))))
+
+//@ func (*Cursor).Ceil
+//@ tags C01 C10 C12
+//@ modifies W G.loads Cursor.path Box.Any@fresh Box.Int@fresh Arr.S_pathEntry Arr.Any@fresh Node.*@fresh mastNode.*@fresh Box.Bytes@fresh
+//@ requires ok [C10] (CursorOK H c)
+//@ requires closure [T3] (AllOK H)
+//@ ensures ok [C10] (=> (= err anil) (CursorOK H c))
+//@ loop 1 invariant ok [C10] (and (CursorOK H c) (> (sl.len (Cursor.path H c)) 0))
+//@ loop 2 invariant ok [C10] (and (CursorOK H c) (> (sl.len (Cursor.path H c)) 0) (> node 0))
